@@ -696,6 +696,10 @@ func resolvePoolFields(pkgs map[string]*packages.Package) {
 // core.Transaction (a value, the per-transaction stores are pointers in a registry).
 var allStoreField = "allStore"
 
+// allStoreWrapper / allStoreEmbedded: when the all-store field is a type of the package that embeds the
+// transaction (type linkStore struct { core.Transaction; ... }), the names of that type and of the embedded field.
+var allStoreWrapper, allStoreEmbedded string
+
 func resolveAllStore(pkgs map[string]*packages.Package) {
 	allStoreField = "allStore"
 	pkg := pkgs["internal/usecase/core"]
@@ -711,10 +715,28 @@ func resolveAllStore(pkgs map[string]*packages.Package) {
 		return
 	}
 	var hits []string
+	allStoreWrapper, allStoreEmbedded = "", ""
 	for i := 0; i < st.NumFields(); i++ {
-		if strings.HasSuffix(st.Field(i).Type().String(), "internal/model/core.Transaction") && !strings.HasPrefix(st.Field(i).Type().String(), "*") {
+		ft := st.Field(i).Type()
+		if strings.HasSuffix(ft.String(), "internal/model/core.Transaction") && !strings.HasPrefix(ft.String(), "*") {
 			hits = append(hits, st.Field(i).Name())
+			continue
 		}
+		// ... or a type of the package that embeds the transaction by value (the all-store with what belongs to it)
+		if nt, ok := ft.(*types.Named); ok && nt.Obj().Pkg() == pkg.Types {
+			if wst, ok := nt.Underlying().(*types.Struct); ok {
+				for j := 0; j < wst.NumFields(); j++ {
+					wf := wst.Field(j)
+					if wf.Embedded() && strings.HasSuffix(wf.Type().String(), "internal/model/core.Transaction") && !strings.HasPrefix(wf.Type().String(), "*") {
+						hits = append(hits, st.Field(i).Name())
+						allStoreWrapper, allStoreEmbedded = nt.Obj().Name(), wf.Name()
+					}
+				}
+			}
+		}
+	}
+	if len(hits) != 1 {
+		allStoreWrapper, allStoreEmbedded = "", ""
 	}
 	if len(hits) == 1 && hits[0] != allStoreField {
 		roleNotes = append(roleNotes, "field usecase/core.UseCase.allStore is now "+hits[0])
